@@ -9,16 +9,26 @@ Model (Lean, driver op "c06"): CbiVerif.SM.getSetmap / fileSetmap, CbiVerif.FTm.
 Property oracle (this file, independent of the code and of the Lean model): the per-line attribution
   {file: {line: platform set}}; every report is recomputed from it with exact Fractions.
 
-Three input streams:
+Five input streams:
   fab  fabricated analysis states (real ParserState / CodeNode objects filled by hand) over a real directory
        skeleton with nested directories and file symlinks: volume for get_setmap / summary / files;
   gen  generated C code bases (harness/gen/codebase.py + extra symlinks and deep directories) analysed in-process,
        all reports called in-process (StringIO), coverage `_compute` called in-process;
   cli  a subset of the gen code bases additionally run through the three CLIs (thread pool of subprocesses);
-  txt  (harness/props/c06_text.py) generated code bases WITHOUT includes and links, given to the model as SOURCE TEXT:
+  txt  (harness/props/c06_text.py) generated code bases (C-family and free-form Fortran files) WITHOUT includes and links, given to the model as SOURCE TEXT:
        the composed pipeline C05 parser model -> C01 associator per -D list -> platform sets -> get_setmap / coverage
        (driver op "c06text", theorems of Props/C06Compose.lean) against finder.find, get_setmap, summary and the real
-       coverage `_compute`; the oracle there is the C05 specification's counted lines + the C01 reference machine.
+       coverage `_compute`; the oracle there is the C05 specification's counted lines + the C01 reference machine;
+       the texts are written with LF, CRLF or lone-CR line endings (the model takes the universal-newline image);
+  inc  (harness/props/c06_inc.py + harness/gen/c06mix.py) code bases WITH #include / -include, C / C++ and Fortran units
+       sharing headers, per-platform forced configuration headers, CRLF / lone CR / Latin-1 / UTF-8 bytes: the per-line
+       attribution is judged against `gcc -E` / `gfortran -cpp -E` of every compile command (marker lines) and against
+       each platform analysed alone; every report and the coverage export (partition + SHA-512 of the bytes) against that.
+The gen / cli code bases also carry byte-level variety (CRLF, lone CR, Latin-1 / UTF-8 comment bytes, no final newline):
+the content hash of the coverage export is the SHA-512 of the BYTES on disk, whatever the parser's text-mode image is.
+       (driver op "c06text", theorems of Props/C06Compose.lean; Fortran files through the C17 parser model, theorems of
+       Props/C06Fortran.lean) against finder.find, get_setmap, summary and the real coverage `_compute`; the oracle there
+       is the C05 resp. C17 specification's counted lines + the C01 reference machine.
 """
 from __future__ import annotations
 
@@ -36,7 +46,7 @@ from fractions import Fraction
 
 from harness import core
 from harness.gen import codebase as G
-from harness.props import c06_text
+from harness.props import c06_inc, c06_text
 
 TOL = Fraction(5, 1000) + Fraction(1, 10 ** 9)
 PLATS = ["cpu", "gpu", "fpga", "arm", "dsp", "npu"]
@@ -661,6 +671,41 @@ def gen_desc(rng):
         desc["outside"] = {"ext.c": ["int outside_a;", "int outside_b;", "#ifdef A", "int outside_c;", "#endif"]}
         extra.append((rng.choice(["ext_link.c", "src/ext_link.c", "links/ext_link.c"]), "../outside/ext.c"))
     desc["links"] = desc["links"] + extra
+    # byte-level variety (drawn last: the description up to here is the one older replays / seeds produced): files whose
+    # text-mode image (universal newlines, errors="replace" decoding) is not their bytes
+    desc["bytes"] = {}
+    if rng.random() < 0.6:
+        cand = [p for p in desc["texts"] if p.rsplit(".", 1)[-1] in ("c", "cpp", "cc", "h", "hpp")]
+        for p in rng.sample(cand, min(len(cand), rng.randint(1, 3))):
+            eol = rng.choice(["crlf", "crlf", "cr", "lf"])
+            enc = rng.choice(["ascii", "latin-1", "latin-1", "utf-8"])
+            body = desc["texts"][p]
+            if enc != "ascii":
+                word = rng.choice(["/* caf\u00e9 */", "// na\u00efve \u00fc\u00df", "/* d\u00e9j\u00e0 vu",  "// \u00a9 1998"])
+                extra_lines = [word, "   still the comment */"] if word.startswith("/* d") else [word]
+                if rng.random() < 0.5 or not body:
+                    body[:0] = extra_lines
+                else:
+                    body += extra_lines
+            desc["bytes"][p] = {"eol": eol, "enc": enc, "final_nl": not (body and rng.random() < 0.15)}
+    # a twin: a second file with the same content next to a member (byte-identical, or identical up to the line endings /
+    # comment bytes chosen above); a twin of a source gets compile commands of its own, a twin of a header is used by nobody -
+    # every file has a record of its own in every report, whatever other files contain
+    desc["twins"] = []
+    if rng.random() < 0.3:
+        cand = [p for p in desc["texts"] if p.rsplit(".", 1)[-1] in ("c", "cpp", "cc", "h", "hpp")]
+        src = rng.choice(cand)
+        twin = os.path.join(os.path.dirname(src), "twin_" + os.path.basename(src))
+        desc["texts"][twin] = list(desc["texts"][src])
+        if src in desc["bytes"] and rng.random() < 0.7:
+            desc["bytes"][twin] = dict(desc["bytes"][src])
+        desc["twins"].append([twin, src])
+        if src in desc["sources"]:
+            desc["sources"].append(twin)
+            for name, entries in desc["platforms"].items():
+                if rng.random() < 0.5:
+                    defs = [f"-D{n}={rng.randint(0, 1)}" for n in G.NAMES if rng.random() < 0.5]
+                    entries.append({"file": twin, "directory": ".", "arguments": ["gcc"] + defs + ["-I", "include", "-c", twin]})
     return desc
 
 
@@ -670,6 +715,12 @@ def materialise(root, desc):
         with open(os.path.join(os.path.dirname(root), "outside", name), "w") as f:
             f.write("\n".join(body) + "\n")
     G.write_codebase(root, desc)
+    for p, b in (desc.get("bytes") or {}).items():
+        eol = {"lf": "\n", "crlf": "\r\n", "cr": "\r"}[b["eol"]]
+        lines = desc["texts"][p]
+        text = eol.join(lines) + (eol if lines and b["final_nl"] else "")
+        with open(os.path.join(root, p), "wb") as f:
+            f.write(text.encode("utf-8" if b["enc"] == "ascii" else b["enc"]))
     if not desc["platforms"]:
         with open(os.path.join(root, "analysis.toml"), "w") as f:
             f.write("[platform]\n")
@@ -787,6 +838,11 @@ def gen_steps(ctx, drv, desc, origin, pool=None, replaying=False):
         ctx.count(key=f"gen:platforms={nplat}", nontrivial_key=nontrivial_key(result, exp_cnt))
         ctx.dist["gen:links=%d" % sum(1 for f in result if f["link"])] += 1
         ctx.dist["gen:sloc<%d" % (10 * (sum(exp_cnt.values()) // 10 + 1))] += 1
+        for b in (desc.get("bytes") or {}).values():
+            ctx.dist["gen:file bytes eol=%s,%s" % (b["eol"], b["enc"])] += 1
+        for twin, src in desc.get("twins") or []:
+            same = (desc.get("bytes") or {}).get(twin) == (desc.get("bytes") or {}).get(src)
+            ctx.dist["gen:twin file " + ("byte-identical" if same else "identical up to line endings / comment bytes")] += 1
         ctx.sample({"kind": "gen", "files": [dict(f, nodes=f["nodes"][:3]) for f in result[:3]], "setmap": {row_name(k): c for k, c in exp_cnt.items()}}, cap=4)
         if replaying:
             info["implementation"] = {
@@ -833,10 +889,20 @@ def set_rule(ctx):
                 "and (b) generated C code bases (shared generator + deep directory, extra/chained/dangling symlinks, 0..4 platforms) "
                 "analysed by finder.find. Non-trivial = distinct analysis results with a file below a sub-directory, >= 2 platform "
                 "sets of which one is non-empty, and at least one line no platform uses. "
-                "(c) stream txt: 1..4 generated C texts (C01 conditional programs decorated with comments, continuations, literals; "
-                "no #include) x 0..4 platforms with 0..2 compile commands (-D lists) per file, given to the model as text; "
+                "(c) stream txt: 1..4 generated texts - C-family files (C01 conditional programs decorated with comments, continuations, "
+                "literals) and free-form Fortran files (.f90/.F90: C17 generator - continued statements, character literals, comment / "
+                "sentinel / blank lines, nested conditionals; rarely a fixed-form .f file, for which the analysis raises), a third of the "
+                "code bases C only, the others mixed or Fortran only; no #include; x 0..4 platforms with 0..2 compile commands (-D lists) "
+                "per file, given to the model as text; "
                 "non-trivial there = spec side defined, >= 2 platform sets of which one non-empty, a file with a conditional "
-                "directive and an uncounted physical line inside its extent.")
+                "directive and an uncounted physical line inside its extent. "
+                "(d) stream inc: 1..4 C / C++ / free-form Fortran units + 1..3 shared headers (guards, #pragma once, nested includes) + "
+                "1..3 forced configuration headers (-include, found through -I) + unused files x 1..4 platforms whose commands "
+                "share or do not share their -D / -I lists; LF / CRLF / lone-CR files, Latin-1 / UTF-8 comment bytes; expected "
+                "attribution from gcc -E / gfortran -cpp -E per command; non-trivial there = >= 2 platform sets of which one "
+                "non-empty and a forced include or a header included from both languages. Files of streams (b) and (c) also vary "
+                "in line endings and comment bytes; stream (b) also has twin files (same content as a member, byte-identical or "
+                "identical up to line endings).")
     ctx.assumptions += [
         "printed percentages / coverages accepted when within 0.005 + 1e-9 of the exact rational",
         "SLOC figures < 1000 per row (so _human_readable is the identity); larger ones compared through a re-statement of _human_readable",
@@ -844,9 +910,19 @@ def set_rule(ctx):
         "directory enumeration order (Path.rglob) is stable between the in-process analysis and the CLI runs on the same directory",
         "the per-line attribution and node list (num_lines, lines) come from the real parser/associator (properties C01-C05 cover them); "
         "C06 checks that num_lines = len(lines) and that no line belongs to two nodes",
-        "content hash = SHA-512 of the file's bytes (what hashlib.file_digest(f, 'sha512') computes)",
+        "content hash = SHA-512 of the file's bytes on disk (what hashlib.file_digest(f, 'sha512') computes), also for files with "
+        "CRLF / lone-CR line endings or bytes that are not UTF-8",
+        "stream inc: a platform uses a code line iff `gcc -E -P` (`gfortran -cpp -E -P` for Fortran units) of one of its compile "
+        "commands, run in the entry's directory with the same -D / -I / -include, lets the line's marker through; a directive line "
+        "iff the group that contains it is processed (ISO C 6.10.1), told by the first marker of that group; counted lines are "
+        "known by construction (one statement per marker, comments and blank lines apart; a header inside the code base is read in "
+        "the language of its own extension - .h / .hpp / .inc: C comments - also when a Fortran unit includes it, which is what "
+        "find() does by parsing every code-base file up front); a command the preprocessor rejects or "
+        "that times out makes the oracle unavailable (case skipped and counted), never a violation; gfortran takes no -include",
         "stream txt: code bases without #include / -include / symbolic links (cross-file attribution is C04's layer); every "
-        "configuration entry names a code-base file; ASCII texts with \\n newlines; platform names distinct",
+        "configuration entry names a code-base file; ASCII texts with \\n newlines; platform names distinct; front end chosen by "
+        "the file extension (C family / free-form Fortran; asm sources are not generated and not modelled); for a Fortran file the "
+        "spec side is C17's reference scanner under C17's guard, and the grouping of its counted lines into nodes is compared, not proved",
     ]
 
 
@@ -861,13 +937,26 @@ def run(ctx, drv):
         c06_text.run_stream(ctx, drv, ctx.n(150, 500))
         if ctx.violations:
             return
+        c06_inc.run_stream(ctx, drv, ctx.n(30, 100))
+        if ctx.violations:
+            return
         run_fab(ctx, drv, ctx.n(40, 150), 6)
         run_gen(ctx, drv, ctx.n(30, 120), 16)
         return
     # time boxes keep the tier within its budget on a loaded machine (counts in the evidence are what was really run)
-    run_fab(ctx, drv, ctx.n(80, 900), 6, seconds=18 if not ctx.thorough() else 150)
-    run_gen(ctx, drv, ctx.n(120, 2000), ctx.n(20, 200), seconds=45 if not ctx.thorough() else 380)
-    c06_text.run_stream(ctx, drv, ctx.n(300, 4000), seconds=20 if not ctx.thorough() else 100)
+    import time
+
+    secs = ctx.extra.setdefault("stream_seconds", {})
+
+    def timed(name, f, *a, **kw):
+        t = time.time()
+        f(*a, **kw)
+        secs[name] = round(time.time() - t, 1)
+
+    timed("fab", run_fab, ctx, drv, ctx.n(80, 900), 6, seconds=18 if not ctx.thorough() else 150)
+    timed("gen+cli", run_gen, ctx, drv, ctx.n(120, 2000), ctx.n(20, 200), seconds=45 if not ctx.thorough() else 380)
+    timed("txt", c06_text.run_stream, ctx, drv, ctx.n(300, 4000), seconds=20 if not ctx.thorough() else 100)
+    timed("inc", c06_inc.run_stream, ctx, drv, ctx.n(45, 700), seconds=12 if not ctx.thorough() else 90)
 
 
 def search(ctx, drv):
@@ -878,6 +967,8 @@ def replay(ctx, drv, case):
     core.import_codebasin()
     if case.get("kind") == "txt":
         return c06_text.replay(ctx, drv, case)
+    if case.get("kind") == "inc":
+        return c06_inc.replay(ctx, drv, case)
     if case.get("kind") == "fab":
         with core.Scratch() as d:
             root = os.path.realpath(d)
